@@ -15,7 +15,7 @@ import time
 HOME = os.environ.get("VERIF_HOME", "/verif")
 REPO = os.environ.get("VERIF_REPO", "/repo")
 APPDIR = os.path.join(HOME, "harness", "realapp")
-SCRATCH = os.path.join(HOME, "out", "real")
+SCRATCH = os.path.join(os.environ.get("VERIF_OUT") or os.path.join(HOME, "out"), "real")
 PY = "/venv/bin/python"
 
 
